@@ -65,6 +65,8 @@ def build_function(case):
 
     def dval(n, i):
         kinds = [('D', n), [i], {'k': i}, None, 0, 'dflt']
+        if case.get('rich_defaults') == 'equalish':
+            kinds = [0, False, 0.0, 1, True, 1.0]       # equal for ==, distinguishable by type: each must stay with its parameter
         defaults[n] = kinds[i % len(kinds)] if case.get('rich_defaults') else ('D', n)
         return '=_d[%r]' % n
     parts = []
@@ -151,8 +153,27 @@ def call_shapes(case, names_kw):
             yield k, sub
 
 
+class _Typed:
+    """a default compared by type AND value (0, False and 0.0 are equal for ==, but not the same default)"""
+    __slots__ = ('v',)
+
+    def __init__(self, v):
+        self.v = v
+
+    def __eq__(self, other):
+        if isinstance(other, _Typed):
+            return type(self.v) is type(other.v) and self.v == other.v
+        return type(self.v) is type(other) and self.v == other
+
+    def __ne__(self, other):
+        return not self.__eq__(other)
+
+    def __repr__(self):
+        return repr(self.v)
+
+
 def sig_summary(sig):
-    return [(p.name, p.kind.name, 'EMPTY' if p.default is inspect.Parameter.empty else p.default,
+    return [(p.name, p.kind.name, 'EMPTY' if p.default is inspect.Parameter.empty else _Typed(p.default),
              'EMPTY' if p.annotation is inspect.Parameter.empty else p.annotation) for p in sig.parameters.values()]
 
 
@@ -218,6 +239,26 @@ def run(case):
                 if b[1] != a[1]:
                     return out.fail('c13.forwarding', '%s: call with %d positional and keywords %r: original sees %r, through the wrapper %r' % (
                         desc, k, sorted(kwargs), a[1], b[1]))
+    # ---- update_dict=False: everything but the copy of custom attributes stays as documented -------------------
+    r = _call(update_wrapper, passthrough(f), f, update_dict=False)
+    if r[0] != 'ok':
+        return out.fail('c13.wrap-raises', 'update_wrapper(%s, update_dict=False) -> %r' % (desc, r))
+    w = r[1]
+    sw = _call(lambda: sig_summary(inspect.signature(w, follow_wrapped=False)))
+    if sw != ('ok', sig_summary(sig_f)):
+        return out.fail('c13.signature', '%s with update_dict=False: parameters %r vs %r' % (desc, sw, sig_summary(sig_f)))
+    for attr in ('__name__', '__doc__', '__module__'):
+        if getattr(w, attr, 'MISSING') != getattr(f, attr):
+            return out.fail('c13.metadata.update_dict_false', '%s with update_dict=False: %s is %r, original %r' % (
+                desc, attr, getattr(w, attr, 'MISSING'), getattr(f, attr)))
+    for k, sub in list(call_shapes(case, names_kw))[::9]:
+        args = tuple(('P', i) for i in range(k))
+        kwargs = {n: ('K', n) for n in sub}
+        a = _call(lambda: drive(f(*args, **kwargs), is_async))
+        b = _call(lambda: drive(w(*args, **kwargs), is_async))
+        if (a[0] == 'exc') != (b[0] == 'exc') or (a[0] == 'ok' and a != b):
+            return out.fail('c13.forwarding', '%s with update_dict=False: call with %d positional and keywords %r gives %r, original %r' % (
+                desc, k, sorted(kwargs), b, a))
     # ---- stacked wrapping: wraps() applied to the result of an earlier wraps() --------------------------
     w1 = _call(lambda: wraps(f)(passthrough(f)))
     if w1[0] == 'ok':
@@ -395,7 +436,7 @@ def strat(tier):
             'annot': draw(st.sampled_from([False, False, True, 'str'])),
             'async': draw(st.sampled_from([False, False, True])),
             'lambda': draw(st.sampled_from([False, False, True])),
-            'attrs': draw(st.booleans()), 'doc': draw(st.booleans()), 'rich_defaults': True,
+            'attrs': draw(st.booleans()), 'doc': draw(st.booleans()), 'rich_defaults': draw(st.sampled_from([True, True, 'equalish'])),
             'gen': draw(st.sampled_from([None, None, None, None, 'gen', 'asyncgen'])),
         }
     return case()
